@@ -157,6 +157,7 @@ func intUUID(n int) uuid.UUID {
 	u[0] = 0x01
 	u[6] = 0x70 // version 7
 	u[8] = 0x80 // variant
+	u[9], u[10], u[11] = 0xEE, 0xEE, 0xEE
 	binary.BigEndian.PutUint32(u[12:], uint32(n))
 	return u
 }
@@ -173,7 +174,7 @@ func (d *ider) id(u uuid.UUID) int {
 	if u == uuid.Nil {
 		return 0
 	}
-	if u[0] == 0x01 && u[6] == 0x70 && u[8] == 0x80 && u[1] == 0 && u[2] == 0 {
+	if u[0] == 0x01 && u[6] == 0x70 && u[8] == 0x80 && u[1] == 0 && u[2] == 0 && u[3] == 0 && u[9] == 0xEE && u[10] == 0xEE && u[11] == 0xEE {
 		return int(binary.BigEndian.Uint32(u[12:]))
 	}
 	if v, ok := d.m[u]; ok {
